@@ -46,7 +46,7 @@ def plan(tier):
     return {"n": 6000, "budget_s": 150, "case_timeout": 90, "workers": 8, "rlimit_as": cap}
 
 
-CALLS = ["getnames", "list", "test", "testzip", "extractall_f", "extract", "reset"]
+CALLS = ["getnames", "list", "test", "testzip", "extractall_f", "extractall_p", "extract", "reset"]
 
 
 def gen_case(rng: Rng, i: int, tier: str):
@@ -61,6 +61,10 @@ def gen_case(rng: Rng, i: int, tier: str):
     for _ in range(n):
         op = r.wpick([(2, "getnames"), (1, "list"), (2, "test"), (3, "testzip"), (3, "extractall_f"), (3, "extract"), (2, "reset")])
         seq.append({"op": op})
+    rpth = rng.sub("pathop")
+    if rpth.chance(0.2):
+        # extraction onto the (jailed) scratch filesystem: the name handling of the directory path is code the factory path never runs
+        seq.insert(rpth.randint(0, len(seq)), {"op": "extractall_p"})
     r2 = rng.sub("k2")
     if r2.chance(0.2):
         # a base written by the reference writer: the layouts py7zr's own writer never makes (pack-stream CRCs, gaps, folder
@@ -73,8 +77,14 @@ def gen_case(rng: Rng, i: int, tier: str):
                 for m in c["members"]:
                     if m.get("content") and m["content"].get("len", 0) > 400:
                         m["content"]["len"] = 400
-                base = {"ref": {"members": c["members"], "layout": c["layout"]}}
-                break
+                rn = rng.sub("respell")
+                for m in c["members"]:
+                    if rn.chance(0.25):
+                        # legal but unusual spellings another writer may store: repeated './' markers, doubled separators
+                        m["name"] = rn.pick(["././", "./", "./././", ".//"]) + m["name"].replace("/", rn.pick(["/", "//", "/./"]), 1)
+                if len({m["name"] for m in c["members"]}) == len(c["members"]):
+                    base = {"ref": {"members": c["members"], "layout": c["layout"]}}
+                    break
     if r2.chance(0.012):
         # a decompression bomb that lies: a few KiB of packed zeros that expand to 160 MiB, in a header that declares 1000
         # bytes (or 1 MiB) of output.  Whatever py7zr does with it, it must not materialise what it was not asked for.
@@ -387,7 +397,7 @@ def run_case(case):
                 res["extra"]["declared_output_over_64MiB_decoding_skipped"] = 1
             for call in case["seq"]:
                 op = call["op"]
-                if bomb and op in ("testzip", "extractall_f", "extract"):
+                if bomb and op in ("testzip", "extractall_f", "extractall_p", "extract"):
                     continue
                 if op == "getnames":
                     fn = z.getnames
@@ -401,6 +411,8 @@ def run_case(case):
                     fn = z.reset
                 elif op == "extractall_f":
                     fn = lambda: z.extractall(factory=_null_factory())
+                elif op == "extractall_p":
+                    fn = lambda: _extract_to_scratch(z)
                 else:
                     try:
                         names = z.getnames()
@@ -491,6 +503,27 @@ def declared_codec_memory(data, pw):
     return best
 
 
+def _extract_to_scratch(z):
+    """extractall(path=...) into a fresh directory of the worker's scratch area, under the audit-hook jail: whatever a hostile
+    archive tries, nothing outside the scratch root is touched."""
+    import shutil
+
+    from simkit import driver, fsjail, tree
+
+    root = driver.worker_scratch()
+    out = os.path.join(root, "c05-out")
+    if os.path.isdir(out):
+        tree.make_removable(out)
+    shutil.rmtree(out, ignore_errors=True)
+    os.makedirs(out)
+    try:
+        with fsjail.Jail(root, out):
+            z.extractall(path=out)
+    finally:
+        tree.make_removable(out)
+        shutil.rmtree(out, ignore_errors=True)
+
+
 def _null_factory():
     """Counts and discards: the harness must not be the one that accumulates a declared-but-bogus output."""
     from py7zr.io import NullIOFactory
@@ -499,7 +532,7 @@ def _null_factory():
 
 
 def _no_reset(prev, name):
-    dec = ("extractall_f", "extract", "testzip")
+    dec = ("extractall_f", "extractall_p", "extract", "testzip")
     if name not in dec:
         return False
     for p in reversed(prev):
